@@ -27,6 +27,7 @@ from Geometry3D import (Point, Vector, Line, HalfLine, Segment, Plane, ConvexPol
 logging.disable(logging.CRITICAL)      # the library logs warnings on perfectly legal calls
 
 TOL = 1e-9
+ABS_TOL = 0.0     # raised temporarily by C19 when comparing objects that differ by a symbolic delta
 
 # ------------------------------------------------------------------------------------------
 # poses: x  |->  k * M * (x / s) + t         (M integer, M M^T = c I, c a perfect square)
@@ -124,8 +125,17 @@ def convs(xs, num):
     return [conv(x, num) for x in xs]
 
 
+PERTURB = {}      # {homogeneous spec point (tuple): (axis, delta)}: symbolic perturbations of C19 made concrete
+
+
 def mk_point(P, pose, num="float"):
-    return Point(*convs(pose.pt(P), num))
+    c = convs(pose.pt(P), num)
+    if PERTURB:
+        pd = PERTURB.get(tuple(P))
+        if pd is not None:
+            c = [float(x) for x in c]
+            c[pd[0]] += pd[1]
+    return Point(*c)
 
 
 def mk_vector(u, pose, num="float", scale=1):
@@ -249,7 +259,7 @@ def call(f, *args):
 # ------------------------------------------------------------------------------------------
 # the conformance relation R
 def close(x, y, scale=1.0):
-    return abs(x - y) <= TOL * max(1.0, abs(y), scale)
+    return abs(x - y) <= max(TOL, ABS_TOL) * max(1.0, abs(y), scale)
 
 
 def pclose(p, q):
